@@ -375,7 +375,20 @@ func ruleListDuplicates(c *Ctx, rule string) {
 			if b, ok := sl.Elem().Underlying().(*types.Basic); !ok || b.Kind() != types.String {
 				continue
 			}
-			if _, isParam := l.slice.(*ssa.Parameter); !isParam {
+			isParamList := func(v ssa.Value) bool {
+				if _, ok := v.(*ssa.Parameter); ok {
+					return true
+				}
+				if phi, ok := v.(*ssa.Phi); ok { // `if len(methods) == 0 { methods = defaults }`
+					for _, e := range phi.Edges {
+						if _, ok := e.(*ssa.Parameter); ok {
+							return true
+						}
+					}
+				}
+				return false
+			}
+			if !isParamList(l.slice) {
 				continue
 			}
 			// a validating loop: an error return inside the body
